@@ -55,6 +55,8 @@ def w_caf(case):
         try:
             _impl["opt"].check_and_fix_contrast(tuple(t), tuple(b), bool(large), (mode + 1) % 3, not bool(very))
             _impl["opt"].check_and_fix_contrast(tuple(t), tuple(b), not bool(large), mode, bool(very))
+            _impl["opt"].check_and_fix_contrast(tuple(t), tuple(b), bool(large), (mode + 2) % 3, bool(very))   # same settings, other modes
+            _impl["opt"].check_and_fix_contrast(tuple(t), tuple(b), bool(large), (mode + 1) % 3, bool(very))
         except Exception:  # noqa
             pass
     try:
@@ -122,6 +124,11 @@ def w_api(case):
             try:
                 pair.make_readable(mode=(mode + 1) % 3, very_readable=not bool(very))
                 pair.make_readable(mode=mode, very_readable=not bool(very))
+                pair.make_readable(mode=(mode + 2) % 3, very_readable=bool(very))       # same settings, other modes
+                colors.ColorPair(text_sp, bg_sp, bool(large)).make_readable(mode=(mode + 1) % 3, very_readable=bool(very))
+                colors.Color(text_sp)                                                   # the same text value on its own: no background
+                if isinstance(text_sp, (tuple, list)):
+                    colors.ColorPair(str(text_sp), bg_sp, bool(large)).make_readable(mode=mode, very_readable=bool(very))   # its informal string spelling
                 colors.ColorPair(text_sp, bg_sp, not bool(large)).make_readable(mode=mode, very_readable=bool(very))
             except Exception:  # noqa
                 pass
